@@ -2,113 +2,237 @@ import Grexv.Lemmas.WFElim
 import Grexv.Lemmas.Pipeline
 
 /-
-S2 with plain settings, made precise enough for the print → parse theorem: every grapheme handed to the trie
-is `Grapheme::from(s)` for a non-empty string of scalar values in which a backslash only occurs alone, and
-writing out the graphemes of a test case gives the test case back.
+S2/S3 made precise enough for the print → parse theorem, for every combination of the six shorthand-class
+options: every grapheme handed to the trie is `Grapheme::from(s)` where `s` spells a non-empty sequence of atoms
+(code points, a backslash only as a grapheme of its own, and class tokens), and the atoms of the cluster of a test
+case are the atoms of its code points, in order.
 -/
 set_option linter.unusedSimpArgs false
 set_option linter.unusedVariables false
 namespace Grexv
-open Dfa Expr
+open Dfa Expr Spec
 
 /-- the contract of the external segmentation (`unicode-segmentation`) for one string: non-empty pieces of
 scalar values whose concatenation is the string -/
 def SegOK (env : Env) (w : Str) : Prop :=
   (∀ p ∈ env.segOf w, p ≠ [] ∧ ∀ x ∈ p, Scalar x) ∧ (env.segOf w).flatten = w
 
-theorem flagOf_plain (cap : Bool) (f : Gen.ClassFlag) : flagOf (cfgPlain cap) f = false := by cases f <;> rfl
+/-! ### what `convert_to_char_classes` writes for one code point -/
 
-theorem convChar_plain (cap : Bool) (c : Nat) : convChar (cfgPlain cap) c = [c] := by
+theorem classLetter_some (L : Nat) (k : ClassKind) (n : Bool) (h : classLetter L = some (k, n)) : L = letterOf k n := by
+  unfold classLetter at h
+  repeat' split at h
+  all_goals first
+    | (simp only [Option.some.injEq, Prod.mk.injEq] at h; obtain ⟨rfl, rfl⟩ := h; assumption)
+    | cases h
+
+theorem convRules_tokens_shape : Gen.convRules.all (fun r => match r.token with
+    | [92, L] => (classLetter L).isSome
+    | _ => false) = true := by decide
+
+theorem convChar_shape (cfg : Config) (c : Nat) :
+    convChar cfg c = [c] ∨ ∃ k n, convChar cfg c = [92, letterOf k n] := by
+  unfold convChar
+  have hall := List.all_eq_true.mp convRules_tokens_shape
+  generalize Gen.convRules = rs at hall
+  induction rs with
+  | nil => left; rfl
+  | cons r rs ih =>
+    simp only [convCharRules]
+    split
+    · right
+      have := hall r List.mem_cons_self
+      match hr : r.token, this with
+      | [92, L], hL =>
+        cases hcl : classLetter L with
+        | none => simp [hcl] at hL
+        | some kn =>
+          obtain ⟨k, n⟩ := kn
+          exact ⟨k, n, by rw [classLetter_some L k n hcl]⟩
+    · exact ih (fun x hx => hall x (List.mem_cons_of_mem _ hx))
+
+/-- the atom a code point is converted to -/
+def convAtom (cfg : Config) (c : Nat) : Atom :=
+  match convChar cfg c with
+  | _ :: L :: _ =>
+    match classLetter L with
+    | some (k, n) => Atom.cls k n
+    | none => Atom.chr c
+  | _ => Atom.chr c
+
+theorem convAtom_of_id (cfg : Config) (c : Nat) (h : convChar cfg c = [c]) : convAtom cfg c = Atom.chr c := by
+  unfold convAtom; rw [h]
+
+theorem convAtom_of_token (cfg : Config) (c : Nat) (k : ClassKind) (n : Bool) (h : convChar cfg c = [92, letterOf k n]) :
+    convAtom cfg c = Atom.cls k n := by
+  unfold convAtom; rw [h]; simp [classLetter_letterOf]
+
+theorem convChar_untok (cfg : Config) (c : Nat) (hc : convChar cfg c = [c] → True) :
+    convChar cfg c = untok [convAtom cfg c] ∧ (convAtom cfg c = Atom.chr c ∨ ∃ k n, convAtom cfg c = Atom.cls k n) := by
+  rcases convChar_shape cfg c with h | ⟨k, n, h⟩
+  · have : convAtom cfg c = Atom.chr c := by
+      unfold convAtom
+      rw [h]
+    exact ⟨by rw [this, h]; rfl, Or.inl this⟩
+  · have : convAtom cfg c = Atom.cls k n := by
+      unfold convAtom
+      rw [h]
+      simp [classLetter_letterOf]
+    exact ⟨by rw [this, h]; rfl, Or.inr ⟨k, n, this⟩⟩
+
+theorem flatten_map_singleton (l : Str) : (l.map (fun c => [c])).flatten = l := by
+  induction l with
+  | nil => rfl
+  | cons a as ih => simp [ih]
+
+theorem untok_append (a b : List Atom) : untok (a ++ b) = untok a ++ untok b := by
+  induction a with
+  | nil => rfl
+  | cons x xs ih => cases x <;> simp [untok, ih]
+
+theorem flatMap_convChar (cfg : Config) (p : Str) : p.flatMap (convChar cfg) = untok (p.map (convAtom cfg)) := by
+  induction p with
+  | nil => rfl
+  | cons c r ih =>
+    simp only [List.flatMap_cons, List.map_cons]
+    rw [ih, (convChar_untok cfg c (fun _ => trivial)).1]
+    exact (untok_append [convAtom cfg c] (r.map (convAtom cfg))).symm
+
+/-- a piece as `GraphemeCluster::from` leaves it: non-empty, scalar values, a backslash only alone -/
+def PieceOK (p : Str) : Prop := p ≠ [] ∧ (p = [92] ∨ 92 ∉ p) ∧ ∀ x ∈ p, Scalar x
+
+theorem piece_atomsOK (cfg : Config) (p : Str) (h : PieceOK p) : p.map (convAtom cfg) ≠ [] ∧ AtomsOK (p.map (convAtom cfg)) := by
+  obtain ⟨hne, hbs, hsc⟩ := h
+  refine ⟨by simpa using hne, ?_⟩
+  rcases hbs with rfl | hno
+  · rcases (convChar_untok cfg 92 (fun _ => trivial)).2 with h1 | ⟨k, n, h1⟩
+    · left; simp [h1]
+    · right
+      intro a ha
+      simp only [List.map_cons, List.map_nil, List.mem_singleton] at ha
+      subst ha; rw [h1]; trivial
+  · right
+    intro a ha
+    obtain ⟨c, hc, rfl⟩ := List.mem_map.mp ha
+    rcases (convChar_untok cfg c (fun _ => trivial)).2 with h1 | ⟨k, n, h1⟩
+    · rw [h1]; exact ⟨fun h92 => hno (by rw [← h92]; exact hc), hsc c hc⟩
+    · rw [h1]; trivial
+
+/-! ### clusters -/
+
+/-- the sub-pieces `GraphemeCluster::from` makes graphemes of -/
+def subPieces (pieces : List Str) : List Str :=
+  pieces.flatMap fun it =>
+    if (decide (it.length ≥ 2) && it.contains 92) || it.any isMarkOrOther then it.map fun c => [c] else [it]
+
+theorem clusterOfPieces_eq (pieces : List Str) : clusterOfPieces pieces = (subPieces pieces).map Grapheme.ofStr := by
+  simp only [clusterOfPieces, subPieces, List.map_flatMap]
+  congr 1
+  funext it
+  split <;> simp [Function.comp]
+
+theorem subPieces_ok (pieces : List Str) (h : ∀ p ∈ pieces, p ≠ [] ∧ ∀ x ∈ p, Scalar x) :
+    (∀ p ∈ subPieces pieces, PieceOK p) ∧ (subPieces pieces).flatten = pieces.flatten := by
+  induction pieces with
+  | nil => exact ⟨by simp [subPieces], rfl⟩
+  | cons it rest ih =>
+    obtain ⟨i1, i2⟩ := ih (fun p hp => h p (List.mem_cons_of_mem _ hp))
+    obtain ⟨hne, hsc⟩ := h it List.mem_cons_self
+    have hstep : subPieces (it :: rest) =
+        (if (decide (it.length ≥ 2) && it.contains 92) || it.any isMarkOrOther then it.map fun c => [c] else [it]) ++ subPieces rest := by
+      simp [subPieces]
+    rw [hstep]
+    split
+    · constructor
+      · intro p hp
+        simp only [List.mem_append, List.mem_map] at hp
+        rcases hp with ⟨c, hc, rfl⟩ | hp
+        · refine ⟨by simp, ?_, by intro x hx; simp only [List.mem_singleton] at hx; subst hx; exact hsc _ hc⟩
+          by_cases h92 : c = 92
+          · exact Or.inl (by rw [h92])
+          · exact Or.inr (by simp; exact fun hc' => h92 hc'.symm)
+        · exact i1 p hp
+      · simp only [List.flatten_append, List.flatten_cons, i2, flatten_map_singleton]
+    · rename_i hc
+      constructor
+      · intro p hp
+        simp only [List.mem_append, List.mem_singleton] at hp
+        rcases hp with rfl | hp
+        · refine ⟨hne, ?_, hsc⟩
+          simp only [Bool.or_eq_true, Bool.and_eq_true, decide_eq_true_eq, not_or, not_and, Bool.not_eq_true] at hc
+          by_cases hlen : p.length ≥ 2
+          · right
+            have := hc.1 hlen
+            simpa [List.contains_iff_mem] using this
+          · match p, hne, hlen with
+            | [x], _, _ =>
+              by_cases h92 : x = 92
+              · exact Or.inl (by rw [h92])
+              · exact Or.inr (by simp; exact fun hc' => h92 hc'.symm)
+            | _ :: _ :: _, _, hl => simp at hl
+        · exact i1 p hp
+      · simp [i2]
+
+theorem convertClasses_map (cfg : Config) (ps : List Str) :
+    convertClasses cfg (ps.map Grapheme.ofStr) = ps.map (fun p => Grapheme.ofStr (p.flatMap (convChar cfg))) := by
+  simp [convertClasses, Grapheme.ofStr, Grapheme.chars, Grapheme.reps, Grapheme.min, Grapheme.max, Function.comp]
+
+theorem convChar_noflags (cfg : Config) (h : cfg.digit = false ∧ cfg.nonDigit = false ∧ cfg.space = false ∧ cfg.nonSpace = false ∧
+    cfg.word = false ∧ cfg.nonWord = false) (c : Nat) : convChar cfg c = [c] := by
+  obtain ⟨h1, h2, h3, h4, h5, h6⟩ := h
+  have hf : ∀ f, flagOf cfg f = false := by intro f; cases f <;> simp [flagOf, *]
   unfold convChar
   generalize Gen.convRules = rs
   induction rs with
   | nil => rfl
-  | cons r rs ih => simp [convCharRules, flagOf_plain, ih]
+  | cons r rs ih => simp [convCharRules, hf, ih]
 
-theorem convertClasses_ofStr (cap : Bool) (s : Str) :
-    (Grapheme.mk ((Grapheme.ofStr s).chars.map fun it => it.flatMap (convChar (cfgPlain cap))) (Grapheme.ofStr s).reps
-      (Grapheme.ofStr s).min (Grapheme.ofStr s).max) = Grapheme.ofStr s := by
-  have : s.flatMap (convChar (cfgPlain cap)) = s := by
-    induction s with
-    | nil => rfl
-    | cons a as ih => simp [List.flatMap_cons, convChar_plain, ih]
-  simp [Grapheme.ofStr, Grapheme.chars, Grapheme.reps, Grapheme.min, Grapheme.max, this]
+theorem flatMap_convChar_noflags (cfg : Config) (h : ∀ c, convChar cfg c = [c]) (p : Str) : p.flatMap (convChar cfg) = p := by
+  induction p with
+  | nil => rfl
+  | cons a as ih => simp [List.flatMap_cons, h, ih]
 
-theorem pieces_cluster (pieces : List Str) (h : ∀ p ∈ pieces, p ≠ [] ∧ ∀ x ∈ p, Scalar x) :
-    PlainBs (clusterOfPieces pieces) ∧ flat (clusterOfPieces pieces) = pieces.flatten := by
-  induction pieces with
-  | nil => exact ⟨plainBs_nil, rfl⟩
-  | cons it rest ih =>
-    obtain ⟨i1, i2⟩ := ih (fun p hp => h p (List.mem_cons_of_mem _ hp))
-    obtain ⟨hne, hsc⟩ := h it List.mem_cons_self
-    have hstep : clusterOfPieces (it :: rest) =
-        (if (decide (it.length ≥ 2) && it.contains 92) || it.any isMarkOrOther then it.map fun c => Grapheme.ofStr [c]
-          else [Grapheme.ofStr it]) ++ clusterOfPieces rest := by
-      simp [clusterOfPieces]
-    rw [hstep]
-    split
-    · constructor
-      · apply plainBs_append _ i1
-        intro g hg
-        obtain ⟨c, hc, rfl⟩ := List.mem_map.mp hg
-        refine ⟨[c], by simp, ?_, by intro x hx; simp only [List.mem_singleton] at hx; subst hx; exact hsc _ hc, rfl⟩
-        by_cases h92 : c = 92
-        · exact Or.inl (by rw [h92])
-        · exact Or.inr (by simp; exact fun hc => h92 hc.symm)
-      · rw [flat_append, i2]
-        simp only [List.flatten_cons]
-        congr 1
-        simp only [flat, List.flatMap_map, value_ofStr]
-        induction it with
-        | nil => rfl
-        | cons a as ih2 => simp
-    · rename_i hc
-      constructor
-      · apply plainBs_append _ i1
-        intro g hg
-        simp only [List.mem_singleton] at hg
-        subst hg
-        refine ⟨it, hne, ?_, hsc, rfl⟩
-        simp only [Bool.or_eq_true, Bool.and_eq_true, decide_eq_true_eq, not_or, not_and, Bool.not_eq_true] at hc
-        by_cases hlen : it.length ≥ 2
-        · right
-          have := hc.1 hlen
-          simpa [List.contains_iff_mem] using this
-        · match it, hne, hlen with
-          | [x], _, _ =>
-            by_cases h92 : x = 92
-            · exact Or.inl (by rw [h92])
-            · exact Or.inr (by simp; exact fun hc => h92 hc.symm)
-          | _ :: _ :: _, _, hl => simp at hl
-      · rw [flat_append, i2]
-        simp [flat, value_ofStr]
-
-/-- the clusters of S2/S3 under plain settings -/
-theorem clusters_plainBs (cap : Bool) (env : Env) (ws : List Str) (hseg : ∀ w ∈ ws, SegOK env w) :
-    graphemeClusters (cfgPlain cap) env ws = ws.map (fun w => clusterOfPieces (env.segOf w)) ∧
-      ∀ w ∈ ws, PlainBs (clusterOfPieces (env.segOf w)) ∧ flat (clusterOfPieces (env.segOf w)) = w := by
-  have hcl : ∀ w ∈ ws, PlainBs (clusterOfPieces (env.segOf w)) ∧ flat (clusterOfPieces (env.segOf w)) = w := by
-    intro w hw
-    obtain ⟨h1, h2⟩ := pieces_cluster (env.segOf w) (hseg w hw).1
-    exact ⟨h1, by rw [h2, (hseg w hw).2]⟩
-  refine ⟨?_, hcl⟩
-  simp only [graphemeClusters, cfgPlain, Bool.false_eq_true, ite_false]
-  cases cap with
-  | false => simp [Config.charClassFeature]
-  | true =>
-    simp only [Config.charClassFeature, Bool.false_or, Bool.or_true, ite_true, List.map_map]
-    apply List.map_congr_left
-    intro w hw
-    simp only [Function.comp, convertClasses]
-    have hp := (hcl w hw).1
-    generalize clusterOfPieces (env.segOf w) = cl at hp
-    induction cl with
-    | nil => rfl
-    | cons g gs ih =>
-      obtain ⟨s, _, _, _, rfl⟩ := hp _ List.mem_cons_self
-      simp only [List.map_cons]
-      rw [ih (fun x hx => hp x (List.mem_cons_of_mem _ hx))]
-      congr 1
-      exact convertClasses_ofStr true s
+/-- the clusters of S2/S3 without `-r`, for every combination of the class options -/
+theorem clusters_atoms (cfg : Config) (hrep : cfg.rep = false) (env : Env) (ws : List Str) (hseg : ∀ w ∈ ws, SegOK env w) :
+    ∃ f : Str → Cluster, graphemeClusters cfg env ws = ws.map f ∧
+      ∀ w ∈ ws, PlainBs (f w) ∧ atomsOf (f w) = w.map (convAtom cfg) := by
+  refine ⟨fun w => (subPieces (env.segOf w)).map (fun p => Grapheme.ofStr (p.flatMap (convChar cfg))), ?_, ?_⟩
+  · by_cases hf : cfg.charClassFeature = true
+    · simp only [graphemeClusters, hrep, Bool.false_eq_true, ite_false, List.map_map, hf, ite_true]
+      apply List.map_congr_left
+      intro w _
+      simp only [Function.comp, clusterOfPieces_eq, convertClasses_map]
+    · have hf' : cfg.charClassFeature = false := by simpa using hf
+      simp only [graphemeClusters, hrep, Bool.false_eq_true, ite_false, hf']
+      apply List.map_congr_left
+      intro w _
+      simp only [clusterOfPieces_eq]
+      have hflags : cfg.digit = false ∧ cfg.nonDigit = false ∧ cfg.space = false ∧ cfg.nonSpace = false ∧
+          cfg.word = false ∧ cfg.nonWord = false := by
+        simp only [Config.charClassFeature, Bool.or_eq_false_iff] at hf'
+        obtain ⟨⟨⟨⟨⟨⟨⟨a, b⟩, c⟩, d⟩, e⟩, f⟩, _⟩, _⟩ := hf'
+        exact ⟨a, b, c, d, e, f⟩
+      apply List.map_congr_left
+      intro p _
+      rw [flatMap_convChar_noflags cfg (convChar_noflags cfg hflags) p]
+  · intro w hw
+    obtain ⟨h1, h2⟩ := subPieces_ok (env.segOf w) (hseg w hw).1
+    constructor
+    · intro g hg
+      obtain ⟨p, hp, rfl⟩ := List.mem_map.mp hg
+      obtain ⟨a1, a2⟩ := piece_atomsOK cfg p (h1 p hp)
+      exact ⟨p.map (convAtom cfg), a1, a2, by rw [flatMap_convChar]⟩
+    · have hw' : w = (subPieces (env.segOf w)).flatten := by rw [h2, (hseg w hw).2]
+      have key : ∀ (ps : List Str), (∀ p ∈ ps, PieceOK p) →
+          atomsOf (ps.map (fun p => Grapheme.ofStr (p.flatMap (convChar cfg)))) = ps.flatten.map (convAtom cfg) := by
+        intro ps
+        induction ps with
+        | nil => intro _; rfl
+        | cons p rest ih =>
+          intro hps
+          obtain ⟨_, a2⟩ := piece_atomsOK cfg p (hps p List.mem_cons_self)
+          simp only [List.map_cons, List.flatten_cons, List.map_append]
+          rw [flatMap_convChar, atomsOf_cons _ a2, ih (fun x hx => hps x (List.mem_cons_of_mem _ hx))]
+      rw [key _ h1, ← hw']
 
 end Grexv
